@@ -484,4 +484,89 @@ def maxNatE : List Nat → Except Exc4 Nat
   | x :: xs => .ok (xs.foldl max x)
 -- --- end T7
 
+/-! --- T9: dictionary / text forms of operators and artefacts (harness/translate_t9.py, property C11): Python numbers that may
+    be complex, `str.startswith / endswith / replace / strip / upper`, the two regular expressions of the term parser, `dict(pairs)`,
+    loops / comprehensions / indexing that may raise (exception classes of `Exc`).  Every definition below is compared with
+    CPython in `harness/prelude_check.py` (ops `t9_*` of the driver).  DOMAIN of the string functions: ASCII strings (with
+    `re.I`, `[XYZI]` also matches U+0130 / U+0131; `str.upper` is rendered on ASCII letters only). -/
+
+/-- a Python number as far as the dictionary forms distinguish them: an `int` / `float` (`real`, exact rational: float rounding
+    is NOT modelled) or a `complex` -/
+inductive Num where
+  | real (x : Rat)
+  | cplx (re im : Rat)
+  deriving DecidableEq, Repr
+
+/-- `z.real`, `z.imag` (an int / float has imaginary part 0) -/
+def Num.re : Num → Rat
+  | .real x => x
+  | .cplx r _ => r
+def Num.im : Num → Rat
+  | .real _ => 0
+  | .cplx _ i => i
+/-- `isinstance(z, complex)` -/
+def Num.isComplex : Num → Bool
+  | .real _ => false
+  | .cplx _ _ => true
+/-- the literal `1j` -/
+def Num.j : Num := .cplx 0 1
+/-- `a + b`: complex iff one of the operands is -/
+def Num.add (a b : Num) : Num :=
+  match a, b with
+  | .real x, .real y => .real (x + y)
+  | _, _ => .cplx (a.re + b.re) (a.im + b.im)
+/-- `a * b` -/
+def Num.mul (a b : Num) : Num :=
+  match a, b with
+  | .real x, .real y => .real (x * y)
+  | _, _ => .cplx (a.re * b.re - a.im * b.im) (a.re * b.im + a.im * b.re)
+/-- truth value of a number -/
+def Num.truthy (a : Num) : Bool := a.re != 0 || a.im != 0
+
+/-- `s.startswith(p)`, `s.endswith(p)` -/
+def startswith (s p : Str) : Bool := p.isPrefixOf s
+def endswith (s p : Str) : Bool := p.reverse.isPrefixOf s.reverse
+/-- `s.replace(old, new)` for a ONE-character `old` -/
+def replaceChar (s : Str) (old : Char) (new : Str) : Str := s.flatMap (fun c => if c == old then new else [c])
+/-- `s.strip(chars)` -/
+def stripChars (s chars : Str) : Str :=
+  ((s.dropWhile (fun c => chars.contains c)).reverse.dropWhile (fun c => chars.contains c)).reverse
+/-- `s.upper()` on ASCII letters (other characters unchanged: DOMAIN ASCII) -/
+def upperAscii (s : Str) : Str :=
+  s.map (fun c => if decide (97 ≤ c.toNat) && decide (c.toNat ≤ 122) then Char.ofNat (c.toNat - 32) else c)
+/-- `re.split(r"\ *\*\ *", s)`: split at every `*`, the spaces around a `*` belong to the separator -/
+def dropSpacesL (p : Str) : Str := p.dropWhile (fun c => c == ' ')
+def dropSpacesR (p : Str) : Str := (p.reverse.dropWhile (fun c => c == ' ')).reverse
+/-- (`first` = no `*` before this part, so its leading spaces stay; the last part keeps its trailing spaces) -/
+def reSplitStarGo : Bool → List Str → List Str
+  | _, [] => []
+  | first, [p] => [if first then p else dropSpacesL p]
+  | first, p :: q :: rest => dropSpacesR (if first then p else dropSpacesL p) :: reSplitStarGo false (q :: rest)
+def reSplitStar (s : Str) : List Str := reSplitStarGo true (split1 '*' s)
+/-- `re.match(r"([XYZI])([0-9]+)$", s, re.I)`: the two groups of the match, `none` when there is no match (`$` also matches
+    before ONE final newline) -/
+def reMatchPauliIndex : Str → Option (Str × Str)
+  | [] => none
+  | c :: rest =>
+    if "XYZIxyzi".toList.contains c then
+      let digits := if rest.getLast? == some '\n' then rest.dropLast else rest
+      if !digits.isEmpty && digits.all isAsciiDigit then some ([c], digits) else none
+    else none
+/-- `dict(pairs)`: a later pair with the same key overwrites the value, the key keeps its first position -/
+def dictOfPairs {κ ν : Type} [BEq κ] (ps : List (κ × ν)) : Dict κ ν := ps.foldl (fun d p => dictSet d p.1 p.2) []
+/-- `xs[i]`: negative indices count from the end, `IndexError` outside -/
+def indexExc {α : Type} (xs : List α) (i : Int) : Except Exc α :=
+  match (if 0 ≤ i then xs[i.toNat]? else if 0 ≤ i + xs.length then xs[(i + xs.length).toNat]? else none) with
+  | some x => .ok x
+  | none => .error .IndexError
+/-- a `for` loop whose body may raise -/
+def foldlExc {σ α : Type} (f : σ → α → Except Exc σ) : σ → List α → Except Exc σ
+  | s, [] => .ok s
+  | s, x :: xs => (f s x).bind (fun s' => foldlExc f s' xs)
+/-- `[f(x) for x in xs]` where `f` may raise: the first exception aborts -/
+def mapExc {α β : Type} (f : α → Except Exc β) : List α → Except Exc (List β)
+  | [] => .ok []
+  | x :: xs => (f x).bind (fun y => (mapExc f xs).bind (fun ys => .ok (y :: ys)))
+-- --- end T9
+
 end OQ.Py
